@@ -1407,7 +1407,8 @@ int EGLPNUM_TYPENAME_ILLbasis_factor (
 				lindex = singc[i];
 				ltype = lp->vtype[lp->baz[lindex]];
 
-				if (ltype == VBOUNDED || ltype == VLOWER || ltype == VARTIFICIAL)
+				/* a fixed column leaves the basis at its (lower == upper) bound, not at zero */
+				if (ltype == VBOUNDED || ltype == VLOWER || ltype == VARTIFICIAL || ltype == VFIXED)
 					lvstat = STAT_LOWER;
 				else if (ltype == VUPPER)
 					lvstat = STAT_UPPER;
